@@ -937,7 +937,7 @@ def heap_of(objs):
         if id(o.p) not in index:
             index[id(o.p)] = len(pls)
             pls.append([sym_to_model(x) for x in o.p])
-        ops_.append(dict(cls=type(o).__name__, pl=index[id(o.p)], dagger=bool(o.dagger)))
+        ops_.append(dict(cls=type(o).__name__, pl=index[id(o.p)], dagger=bool(getattr(o, "dagger", False))))
     return dict(ops=ops_, pls=pls)
 
 
@@ -1018,6 +1018,84 @@ def heaps_equal(a, b):
                                      for x, y in zip(l1, l2)):
             return False
     return True
+
+
+def heap_merge_cases(ctx, sf, reqs, pending):
+    """Gate.merge / Channel.merge for every class that inherits them x first parameters (equal, opposite, other,
+    measured) x dagger combinations x equal / different other parameters x same / other family: operands untouched
+    (values and list identity), result = model"""
+    from strawberryfields import ops
+    from strawberryfields.program_utils import MergeFailure
+    prog = sf.Program(3)
+    prog.reg_refs[2].val = 0.5
+    gates = ["Dgate", "Sgate", "Rgate", "BSgate", "S2gate", "Kgate", "Vgate", "CKgate", "Xgate", "Zgate", "Pgate", "CXgate", "CZgate"]
+    chans = ["LossChannel", "ThermalLossChannel"]
+    mk = lambda v: {"meas": 2 * prog.reg_refs[2].par, "measneg": -2 * prog.reg_refs[2].par}.get(v, v)
+    for cls in gates + chans:
+        chan = cls in chans
+        npar = {**er.GATES1, **er.GATES2, **er.CHANNELS}[cls]
+        firsts = [(0.5, 0.25), (0.5, 2.0), (1.0, 1.0)] if chan else \
+            [(0.375, 0.25), (0.375, -0.375), (0.375, 0.375), ("meas", "meas"), ("meas", "measneg"), ("meas", 0.25)]
+        for fa, fb in firsts:
+            for da, db in ([(False, False)] if chan else [(False, False), (False, True), (True, False), (True, True)]):
+                for same_rest in (True, False):
+                    for other_family in (False, True):
+                        if npar == 1 and not same_rest:
+                            continue
+                        A = getattr(ops, cls)(*([mk(fa)] + [0.25] * (npar - 1)))
+                        clsb = ("LossChannel" if cls != "LossChannel" else "ThermalLossChannel") if (chan and other_family) else \
+                            (("Rgate" if cls != "Rgate" else "Kgate") if other_family else cls)
+                        nb = {**er.GATES1, **er.GATES2, **er.CHANNELS}[clsb]
+                        B = getattr(ops, clsb)(*([mk(fb)] + [0.25 if same_rest else 0.5] * (nb - 1)))
+                        if da:
+                            A = A.H
+                        if db:
+                            B = B.H
+                        case = dict(cls=cls, other=clsb, a=str(fa), b=str(fb), da=da, db=db, same_rest=same_rest)
+                        ctx.count("heap:merge", case, True)
+                        before = heap_of([A, B])
+                        ids = (id(A.p), id(B.p), [id(x) for x in A.p], [id(x) for x in B.p])
+                        try:
+                            r = A.merge(B)
+                            real = "identity" if r is None else heap_of([A, B, r])
+                        except MergeFailure:
+                            r, real = None, "failure"
+                        except Exception as e:  # noqa: BLE001
+                            ctx.fail(f"merge-raised:{type(e).__name__}", f"{cls}.merge({clsb}) raised {type(e).__name__}: {e}", dict(kind="heap-merge", **case))
+                            continue
+                        ctx.oracle_cases += 1
+                        if heap_of([A, B]) != before or ids != (id(A.p), id(B.p), [id(x) for x in A.p], [id(x) for x in B.p]):
+                            ctx.fail("merge-mutated-operand", f"{cls}{'.H' if da else ''}.merge({clsb}{'.H' if db else ''}) changed one of its "
+                                     "operands (merge must never modify self or other)", dict(kind="heap-merge", **case))
+                        if r is not None and (r.p is A.p or r.p is B.p) and r is not A and r is not B:
+                            ctx.fail("merge-result-shares-parameter-list", f"{cls}.merge: the new operation shares its parameter list with an "
+                                     "operand", dict(kind="heap-merge", **case))
+                        if ctx.proof_ok:
+                            reqs.append(dict(op="eng.merge", heap=before, a=0, b=1, channel=chan))
+                            pending.append((case, real))
+
+
+def flush_heap_merge(ctx, reqs, pending):
+    if not reqs:
+        return
+    for (case, real), model in zip(pending, ctx.lean(reqs)):
+        pair = "Gate/Channel.merge vs Eng.gateMergeH/channelMergeH"
+        if "__error__" in model:
+            ctx.disagree(pair, case, model, real)
+            continue
+        res = model["res"]
+        if res == "unmodelled":
+            ctx.tally("merge:unmodelled")
+            continue
+        ctx.corr_cases += 1
+        if isinstance(res, str) or isinstance(real, str):
+            if res != real:
+                ctx.disagree(pair + " (outcome)", case, res, real if isinstance(real, str) else "merged")
+            continue
+        if res["merged"] != 2 or not heaps_equal(model["heap"], real):
+            ctx.disagree(pair + " (heap)", case, model["heap"], real)
+    reqs.clear()
+    pending.clear()
 
 
 def canon_seq(objs_seq):
@@ -1229,6 +1307,8 @@ def run(ctx, sf):
     flush_heap_apply(ctx, hr, hp)
     heap_decompose_cases(ctx, sf, hr, hp)
     flush_heap_decompose(ctx, hr, hp)
+    heap_merge_cases(ctx, sf, hr, hp)
+    flush_heap_merge(ctx, hr, hp)
     dagger_inverse_checks(ctx, sf)
     rng = ctx.rng
     tdm_checks(ctx, sf, rng)
@@ -1278,6 +1358,8 @@ def replay(ctx, rp):
         reset_and_compile_checks(ctx, sf, rp["spec"])
     elif rp["kind"] == "heap-apply":
         heap_apply_cases(ctx, sf, [], [])
+    elif rp["kind"] == "heap-merge":
+        heap_merge_cases(ctx, sf, [], [])
     elif rp["kind"] == "heap-decompose":
         heap_decompose_cases(ctx, sf, [], [])
     else:
